@@ -196,7 +196,7 @@ def main(tier):
     jobs += [(job_txt_loader, (2,)), (job_impedance_reader, (2,)), (job_h5_reader, ()), (job_tracks_index, (4, 1, 8, 2))]
     if tier != 'quick':
         jobs += [(job_kick_beyond, (n, nb, it, ax, r)) for n, nb in ((6, 3), (9, 1)) for it in (1, 2, 3, 4) for ax in (0, 1) for r in range(n)]
-        jobs += [(job_txt_loader, (3,)), (job_impedance_reader, (3,)), (job_tracks_index, (5, 2, 12, 3))]
+        jobs += [(job_txt_loader, (3,)), (job_impedance_reader, (3,)), (job_tracks_index, (5, 2, 12, 2)), (job_tracks_index, (7, 1, 8, 1))]
     chk.bounds = {'kick maps': 'grids 8 (6, 9), one row with displacement in [-2n, 2n] (all integer parts) + a particle anywhere on the grid', 'impedance tables': 'internal length 8/9 vs table length 1..12',
                   'text loaders': 'under-constrained runs of makePSFromTXT and Impedance::readData: up to 2 (3) loop passes, each extraction may succeed with an arbitrary value or fail', 'HDF5 start file': 'arbitrary rank and extents returned by the library',
                   'scope': 'memory safety is decided for these units within these bounds, not for the program as a whole; in addition every load/store of every symbolic run of the other checks is bounds-checked against the allocation table'}
